@@ -611,6 +611,69 @@ Proof.
   apply memb_false. destruct (memb c own); [discriminate|reflexivity].
 Qed.
 
+(* ---- the exact products satisfy the den-specifications assumed of spgemm / spgemm_T (with no drop):
+        the hypotheses of part A are satisfiable by executable functions ---- *)
+Lemma add_entry_cols j v r p : In p (add_entryF j v r) -> fst p = j \/ In (fst p) (map fst r).
+Proof.
+  induction r as [|q r IH]; cbn [add_entry]; intros H.
+  - destruct H as [<-|[]]. left; reflexivity.
+  - destruct (fst q =? j) eqn:E.
+    + destruct H as [<-|H]; [left; reflexivity|]. right. simpl. right. apply in_map; exact H.
+    + destruct H as [<-|H]; [right; simpl; left; reflexivity|].
+      destruct (IH H) as [H'|H']; [left; exact H'|right; simpl; right; exact H'].
+Qed.
+
+Lemma compress_cols r p : In p (compressF r) -> In (fst p) (map fst r).
+Proof.
+  unfold compress.
+  assert (G : forall acc, In p (fold_left (fun acc q => add_entryF (fst q) (snd q) acc) r acc) ->
+                          In (fst p) (map fst acc) \/ In (fst p) (map fst r)).
+  { induction r as [|q r IH]; intros acc H; cbn [fold_left] in H.
+    - left. apply in_map; exact H.
+    - destruct (IH _ H) as [H'|H'].
+      + apply in_map_iff in H'. destruct H' as (x & Hx & Hin). destruct (add_entry_cols _ _ _ _ Hin) as [E|E].
+        * right. simpl. left. congruence.
+        * left. rewrite <- Hx. exact E.
+      + right. simpl. right. exact H'. }
+  intros H. destruct (G [] H) as [[]|H']. exact H'.
+Qed.
+
+Lemma mm_wf (A B : csrF) : csr_wf A -> csr_wf B -> csr_wf (mmF A B).
+Proof.
+  intros [HlA HcA] [HlB HcB]. split.
+  - unfold mm. cbn [csr_rows csr_nr]. rewrite map_length. exact HlA.
+  - unfold mm. cbn [csr_rows csr_nc]. intros r Hr p Hp.
+    apply in_map_iff in Hr. destruct Hr as (ra & <- & Hra).
+    unfold mm_line in Hp. apply compress_cols in Hp.
+    apply in_map_iff in Hp. destruct Hp as (q & Hq & Hin). rewrite <- Hq.
+    apply in_flat_map in Hin. destruct Hin as (pa & _ & Hin).
+    apply in_map_iff in Hin. destruct Hin as (pb & <- & Hpb). cbn [fst].
+    destruct (Nat.lt_ge_cases (fst pa) (length (csr_rows B))) as [Hi|Hi].
+    + apply (HcB (nth (fst pa) (csr_rows B) [])); [apply nth_In; exact Hi|exact Hpb].
+    + rewrite nth_overflow in Hpb by exact Hi. destruct Hpb.
+Qed.
+
+Notation dropN := (drop F zero (fun _ => false)).
+
+Theorem mm_spgemm_spec : spgemm_spec F zero add mul (fun _ => false) mmF.
+Proof.
+  intros A B HA HB Hn. split; [apply mm_wf; assumption|]. split; [reflexivity|]. split; [reflexivity|].
+  intros i j. unfold drop. rewrite den_mm by exact HA. rewrite Hn. reflexivity.
+Qed.
+
+Theorem mm_spgemm_T_spec :
+  spgemm_T_spec F zero add mul (fun _ => false) (fun P B => mmF (csr_transpose P) B).
+Proof.
+  intros P B HP HB Hn. split; [apply mm_wf; [apply csr_transpose_wf; exact HP|exact HB]|].
+  split; [reflexivity|]. split; [reflexivity|].
+  intros i j. unfold drop. rewrite den_mm by (apply csr_transpose_wf; exact HP).
+  change (csr_nc (csr_transpose P)) with (csr_nr P).
+  apply sumf_map_ext. intros k _. rewrite den_csr_transpose by exact HP. reflexivity.
+Qed.
+
+Lemma id_pass_spec : pass_spec F zero add (fun A => A).
+Proof. intros A H. split; [exact H|]. split; [reflexivity|]. split; reflexivity. Qed.
+
 (* ---- form_dense_coarse ---- *)
 Lemma last_at_notin r j d : ~ In j (map fst r) -> last_at F r j d = d.
 Proof.
